@@ -128,4 +128,9 @@ func C11Migrate(ctx context.Context, run *common.Run) {
 	run.Eval(1)
 }
 
-func init() { Extra["C11"] = C11Migrate }
+func init() {
+	Extra["C11"] = func(ctx context.Context, run *common.Run) {
+		C11Migrate(ctx, run)
+		C11LoadGrowPrune(ctx, run)
+	}
+}
